@@ -34,6 +34,10 @@ def pub_parents(p):
         ("constructed", Pub(key=rp.sec(), **kw)),
         ("parsed-ref-xpub", Pub.parse(rp.xpub(vpub), testnet=p["testnet"])),
         ("parsed-own-xpub", Pub.parse(prv.extended_public_key(), testnet=p["testnet"])),
+        # the same key exported under a SLIP-132 flavour (ypub/zpub/upub/vpub): flavour is presentation, not key material
+        ("parsed-slip132-xpub", Pub.parse(rp.xpub(R.VERSION_OF[("pub", p["testnet"], 84 if p["k"] & 1 else 49)]), testnet=p["testnet"])),
+        # built from a mutable buffer the caller keeps
+        ("constructed-bytearray", Pub(key=bytearray(rp.sec()), **dict(kw, chain_code=bytearray(p["c"])))),
     ]
 
 
@@ -94,6 +98,8 @@ def check_path(case, ctx):
                 raise Violation("C02/path/raised", "%s parent: public ckd(%d) at level %d raised %r" % (form, i, lvl, cur))
             compare_pub("C02/path", "%s parent, path %s level %d" % (form, R.fmt_path(path, "M"), lvl + 1),
                         cur, refs[lvl], p["testnet"], prv_nodes[lvl])
+        if path:
+            compare_pub("C02/root-after-derivation", "%s public parent after %d derivation step(s)" % (form, len(path)), root, rp.neuter(), p["testnet"], prv)
     if path:
         # the first child built with the public constructor and `parent=` a node object that has derived nothing itself
         Prv, Pub = _impl()
@@ -279,6 +285,32 @@ def check_threads(case, ctx):
                                 "is %r, expected key %s" % (len(case["threads"]), i, t, results[t][j], want.sec().hex()))
 
 
+# ---------------------------------------------------------------------------- parents whose fingerprints collide
+import json as _json
+import os as _os
+with open(_os.path.join(_os.path.dirname(_os.path.dirname(_os.path.abspath(__file__))), "ref", "fpcollide.json")) as _f:
+    FP_PAIRS = _json.load(_f)       # pairs of scalars whose compressed public keys share HASH160[:4] (found by search)
+
+
+def enum_fp(tier):
+    for j, pr in enumerate(FP_PAIRS if tier != "quick" else FP_PAIRS[:3]):
+        for order in (0, 1):
+            yield {"k": [pr["k1"], pr["k2"]] if order == 0 else [pr["k2"], pr["k1"]], "fp": pr["fingerprint"],
+                   "testnet": bool(j & 1), "path": [[0], [1, H - 1]][order]}
+
+
+def check_fp(case, ctx):
+    """BIP32 notes that fingerprints can collide: two different public parents with the SAME 4-byte fingerprint are used
+    one after the other in one process; each must derive its own children."""
+    for n_, k in enumerate(case["k"]):
+        p = {"k": k, "c": bytes([n_ + 1]) * 32, "depth": 2, "index": 7, "pfp": b"\x0a\x0b\x0c\x0d", "testnet": case["testnet"]}
+        rp = ref_parent(p)
+        if rp.fingerprint().hex() != case["fp"]:
+            raise RuntimeError("table entry does not collide")
+        check_path({"parent": p, "path": list(case["path"]), "_sibling": True}, ctx)
+    ctx.count("colliding-parents", 2)
+
+
 def clauses():
     return [
         Clause("path", check_path,
@@ -289,7 +321,7 @@ def clauses():
                gen=lambda tier: st.fixed_dictionaries({"parent": parents(),
                                                        "path": st.lists(S.normal_indexes(), max_size=6)}),
                nontrivial=nt_path, classes=lambda c: ["len=%d" % min(len(c["path"]), 4)],
-               n={"quick": 1100, "thorough": 60000}, shards={"quick": 16, "thorough": 16}),
+               n={"quick": 800, "thorough": 60000}, shards={"quick": 16, "thorough": 16}),
         Clause("refusal", check_refusal,
                "a hardened index (2^31, 2^31+1, 2^32-1, uniform) directly or inside an index list after a normal "
                "prefix: ckd / derive_path / generate_children on public-only nodes must raise and record no child; "
@@ -315,4 +347,10 @@ def clauses():
                "byte in x (1 in 256) and that child is derived publicly, then derived from again",
                enum=enum_lz, enum_desc="6 (quick) / 40 (thorough) parents, first leading-zero child each",
                shards={"quick": 6, "thorough": 16}),
+        Clause("fingerprint-collision", check_fp,
+               "frozen table of scalar pairs whose public keys share the 4-byte fingerprint (found by a search over 135,000 "
+               "consecutive keys): both parents are used one after the other in one process, in both orders, and each is "
+               "judged exactly as in `path`",
+               enum=enum_fp, exhaustive=True, enum_desc="3 (quick) / 4 (thorough) colliding pairs x 2 orders",
+               nontrivial=lambda c: True, shards={"quick": 6, "thorough": 8}),
     ]
